@@ -57,6 +57,13 @@ def scope_family():
             for q in ('bind', 'exists'):
                 body1, body2 = ('or', inner, psi), ('and', psi, ('not', inner))
                 out += [(q, 'x', da, body1 if q == 'bind' else ('jump', 'x', body1)), (q, 'x', da, body2 if q == 'bind' else ('jump', 'x', body2))]
+    # an inner quantifier whose domain is EMPTY in the universe of the outer restricted scope (d and e never share a colour),
+    # then a closed duplicate inside the outer scope, then the same duplicate outside (and the other way round)
+    for psi in [('EF', ('and', P0, ('not', P1))), ('AX', W)]:
+        for q1, q2 in (('bind', 'exists'), ('exists', 'forall'), ('forall', 'bind')):
+            inner = (q2, 'xx', 'e', ('jump', 'xx', P0))
+            scope = (q1, 'x', 'd', ('or', inner, psi) if q1 == 'bind' else ('jump', 'x', ('or', inner, psi)))
+            out += [('and', scope, psi), ('or', ('not', psi), scope)]
     return out
 
 def triple_family():
